@@ -16,7 +16,9 @@ MODULE = "Props.C15"
 SUPPORT = ["theories/Proofs/TypingP.v", "theories/Proofs/MixedP.v", "theories/Proofs/QuantityP.v"]
 TYPES = ["f64", "f32", "bigrational", "i64"]
 BASES = ["si", "cgs", "kgh"]
-FEATURES = ["autoconvert", "f32", "f64", "i64", "bigrational", "si", "std"]
+FEATURES = ["autoconvert", "f32", "f64", "i64", "i32", "u64", "bigint", "rational64", "bigrational", "complex32", "complex64", "si", "std"]
+# number <-> Ratio is checked for every storage class (the conversions between kinds only where re-basing is meaningful for the class)
+RATIO_TYPES = TYPES + ["i32", "u64", "bigint", "rational64", "complex64", "complex32"]
 
 
 def from_slot(a, b, bsl, bsr, ty):
@@ -39,8 +41,8 @@ def ratio_slot(bs, ty):
     let p = |s: &str| -> V {{ {parse_expr(ty, 's')} }};
     let sh = |v: &V| -> String {{ {show_expr(ty, 'v.clone()')} }};
     match a[0] {{
-        "to_ratio" => {{ let r: R = R::from(p(a[1])); sh(&r.value) }}
-        "to_number" => {{ let r = R {{ dimension: PhantomData, units: PhantomData, value: p(a[1]) }}; let v: V = V::from(r); sh(&v) }}
+        "to_ratio" => {{ let r: R = R::from(p(a[1])); format!("{{}} {{}}", sh(&r.value), sh(&p(a[1]))) }}
+        "to_number" => {{ let r = R {{ dimension: PhantomData, units: PhantomData, value: p(a[1]) }}; let v: V = V::from(r); format!("{{}} {{}}", sh(&v), sh(&p(a[1]))) }}
         _ => "BADOP".to_string(),
     }}"""
 
@@ -64,7 +66,7 @@ def run(ctx):
         for b in t.quantities:
             if b["kind"] == "Kind" and b["dim"] == a["dim"]:
                 pairs += [(a, b), (b, a)]
-    h = Harness("c15", FEATURES, prelude=B.prelude(BASES, TYPES))
+    h = Harness("c15", FEATURES, prelude=B.prelude(BASES, RATIO_TYPES))
     cases, meta, mlines = [], {}, []
     bpairs = [(l, r) for l in BASES for r in BASES]
     for ty in TYPES:
@@ -90,14 +92,24 @@ def run(ctx):
                         cases.append((cid, sl, [op, txt]))
                         meta[cid] = ("kind", ty, a, b, bl, br, v, sl)
                         mlines.append(f"{cid} {cls} std (rebase 1 {Ul} {Ur} {T.zlist(a['dim'])} {model_val(ty, txt)})")
+    for ty in RATIO_TYPES:
+        cls = STYPES[ty]["cls"]
         for bs in BASES:
             sl = h.slot(ratio_slot(bs, ty))
             rng = ctx.rng.fork(f"ratio:{ty}:{bs}")
             for k in range(8):
-                v = FC.random_value(rng, ty) if B.is_float(ty) else (VG.rat_value(rng, ty) if cls == "q" else VG.int_value(rng, ty, small=True))
-                if B.is_float(ty) and k < 3:
-                    v = [FC.special_values(ty)["-0"], FC.special_values(ty)["nan"], FC.special_values(ty)["+inf"]][k]
-                txt = VG.val_text(ty, v)
+                if cls in ("c64", "c32"):
+                    ft = "f64" if cls == "c64" else "f32"
+                    comp = lambda j: FC.hexbits([FC.special_values(ft)["-0"], FC.special_values(ft)["nan"], FC.special_values(ft)["+inf"]][j] if j < 3 else FC.random_value(rng, ft), ft)
+                    txt = f"{comp(k)},{comp((k + 1) % 8)}"
+                    v = txt
+                else:
+                    v = FC.random_value(rng, ty) if B.is_float(ty) else (VG.rat_value(rng, ty) if cls == "q" else VG.int_value(rng, ty, small=True))
+                    if ty in ("u64", "biguint") and not B.is_float(ty):
+                        v = abs(v)
+                    if B.is_float(ty) and k < 3:
+                        v = [FC.special_values(ty)["-0"], FC.special_values(ty)["nan"], FC.special_values(ty)["+inf"]][k]
+                    txt = VG.val_text(ty, v)
                 for op in ("to_ratio", "to_number"):
                     cid = f"k{len(cases)}"
                     cases.append((cid, sl, [op, txt]))
@@ -123,11 +135,12 @@ def run(ctx):
             bad.append((cid, f"harness answered {got}"))
             continue
         want_same = args[1]
-        if B.is_float(ty) and FC.is_nan_bits(int(args[1], 16), ty):
+        if kind != "ratio" and B.is_float(ty) and FC.is_nan_bits(int(args[1], 16), ty):
             want_same = "nan"
         if kind == "ratio":
-            if got != want_same:
-                bad.append((cid, f"number <-> ratio changed the value: {args[1]} -> {got}"))
+            res, inp = got.split(" ")
+            if res != inp:
+                bad.append((cid, f"number <-> ratio changed the value: {inp} -> {res}"))
             continue
         if cid in model and canon_model_out(ty, model[cid].strip()) != got:
             disagreements.append((cid, got, canon_model_out(ty, model[cid].strip())))
@@ -178,7 +191,7 @@ def run(ctx):
     cov["programs"] = len(progs)
     cov["rustc"] = stats
     cov["rule"] = ("values: every special-kind SI quantity <-> each default-kind quantity of the same exponents, From and Into, f64/f32/BigRational (ordered pairs of "
-                   "base-unit sets {SI, cgs, km-g-h}) and i64 (same base), number <-> Ratio in every base set; programs: conversions special <-> twin, special -> "
+                   "base-unit sets {SI, cgs, km-g-h}) and i64 (same base), number <-> Ratio in every base set for ten storage types incl. integers, BigInt, Rational64, Complex32/64; programs: conversions special <-> twin, special -> "
                    "other special, all-distinct synthetic exponent vectors across kinds and base sets, number <-> every quantity")
     cov["disagreements_checked"] = len(disagreements) + stats["mismatches"]
     cov["spec_failures"] = len(bad)
